@@ -183,8 +183,33 @@ pub fn check(bc: &BuildCase, fam: &str, obs: &mut Obs) -> Result<(), Fail> {
     Ok(())
 }
 
+/// see the part `cold_first_use_all_masks`
+pub fn cold_first_use(bc: &BuildCase, obs: &mut Obs) -> Result<(), Fail> {
+    let pool: Vec<BuildCase> = (0..8u8)
+        .map(|k| {
+            let mut c = bc.clone();
+            c.opts.mask = Some(k);
+            c.warm = None;
+            c.pred = 0;
+            c
+        })
+        .collect();
+    let round = super::c14::Round { pool, plans: (0..16usize).map(|t| (0..8usize).map(|j| (j + t / 2) % 8).collect()).collect(), render: false, repeat: 1 };
+    super::c14::check_cold_round(&round, obs).map_err(|mut f| {
+        f.sig = format!("first_use:{}", f.sig);
+        f
+    })
+}
+
 pub fn replay(_e: &Engine, case: &Value, obs: &mut Obs) -> Result<(), Fail> {
     let b = BuildCase::from_json(case).ok_or_else(|| Fail { sig: "bad_replay".into(), msg: "cannot parse case".into() })?;
+    if case.get("cold_first_use").is_some() {
+        // schedules are sampled, not controlled: several fresh processes
+        for _ in 0..12 {
+            cold_first_use(&b, obs)?;
+        }
+        return Ok(());
+    }
     check(&b, "replay", obs)
 }
 
@@ -253,6 +278,24 @@ pub fn run(e: &'static Engine) {
             jc.run_prop(6 << 20, &strat, total / shards, |c| c.to_json(), |c, o| {
                 o.label("part:default_level_edge");
                 check(c, "default_level_edge", o)
+            });
+        }));
+    }
+    e.par(jobs);
+    // The eight pinned-mask builds of one payload as the FIRST use of the crate in a fresh process, on 16 threads released
+    // together (C14's cold concurrent round): whatever the masks initialise lazily is initialised under contention. The
+    // digests must be those of this process's sequential builds (which the parts above compare with the ISO patterns).
+    let rounds: u32 = e.tier.pick(24, 320);
+    let mut jobs: Vec<Job> = Vec::new();
+    for _ in 0..4 {
+        jobs.push(Box::new(move |jc: &mut JobCtx| {
+            let strat = (1usize..=6, 0usize..4, 0usize..3, any::<bool>()).prop_flat_map(|(v, li, mi, fv)| {
+                let cell = Cell { version: v, level: Level::from_index(li), mode: Mode::from_index(mi) };
+                case_in_cell(cell, Force { mode: false, level: true, version: fv }, Some(0)).prop_map(|(c, _)| c)
+            });
+            jc.run_prop(8 << 20, &strat, rounds / 4, |c| { let mut j = c.to_json(); j["cold_first_use"] = json!(true); j }, |c, o| {
+                o.label("part:cold_first_use_all_masks");
+                cold_first_use(c, o)
             });
         }));
     }
